@@ -372,6 +372,9 @@ func bytesEqual(x, y value) value {
 	if okx && oky {
 		return hmac.Equal(bx, by) || (len(bx) == 0 && len(by) == 0)
 	}
+	if r, ok := macEqSimplify(bytesTerm(x), bytesTerm(y)); ok { // agentF1: A-mac injectivity, syntactically
+		return boolVal(r)
+	}
 	return boolVal(mkEq(bytesTerm(x), bytesTerm(y)))
 }
 
@@ -424,6 +427,9 @@ func b64Decode(fr *frame, a []value) value {
 	m := fr.i.m
 	s := strArg(a[1])
 	n := b64Name(e)
+	if s.Op == "uf" && s.S == n && len(s.Args) == 1 {
+		return tuple{termBytes(s.Args[0]), iface{}} // agentF1: dec(enc(x)) = x
+	}
 	b64DecodeAxioms(m, e, n, s, mkUF(n+"_ok", SBool, s)) // agentF1: decodability is a regular language
 	if !m.decide(mkUF(n+"_ok", SBool, s)) {
 		return tuple{[]value(nil), mkSymErr("base64.CorruptInputError", "illegal base64 data")}
